@@ -239,4 +239,78 @@ def toStr (v : Ver) : List Char :=
   (if v.post ≠ 0 then ['.', 'p', 'o', 's', 't'] ++ intStr v.post else []) ++
   (if v.dev ≠ 0 then ['.', 'd', 'e', 'v'] ++ intStr v.dev else [])
 
+/-! ### pkg/pep440/range.go -/
+
+/-- The comparison operators of a version specifier (`op` in range.go). -/
+inductive Op where
+  | eq | ne | le | ge | lt | gt
+  deriving Repr, DecidableEq
+
+structure Criterion where
+  op : Op
+  v : Ver
+  deriving Repr, DecidableEq
+
+/-- `(*criterion).Match`: `cmp := v.Compare(&c.V)` against the operator. -/
+def Criterion.matches (c : Criterion) (v : Ver) : Bool :=
+  match c.op with
+  | .eq => cmp v c.v == .eq
+  | .ne => cmp v c.v != .eq
+  | .le => cmp v c.v != .gt
+  | .ge => cmp v c.v != .lt
+  | .lt => cmp v c.v == .lt
+  | .gt => cmp v c.v == .gt
+
+/-- `Range.Match`: every criterion matches. -/
+def rangeMatch (r : List Criterion) (v : Ver) : Bool := r.all (·.matches v)
+
+/-- `unicode.IsSpace` on ASCII (the characters `strings.Map(stripSpace, r)` removes). -/
+def isSpace (c : Char) : Bool :=
+  c = '\t' || c = '\n' || c = '\x0b' || c = '\x0c' || c = '\r' || c = ' '
+
+def isOpChar (c : Char) : Bool := c = '~' || c = '=' || c = '!' || c = '<' || c = '>'
+
+/-- `strings.LastIndexAny(r, "~=!<>") + 1`, as the split of the text there:
+    (operator text, version text). -/
+def splitAtLastOp (s : List Char) : List Char × List Char :=
+  let k := (s.reverse.dropWhile (fun c => !isOpChar c)).length
+  (s.take k, s.drop k)
+
+/-- `int + 1` on a 64-bit platform. -/
+def inc64 (x : Int) : Int := (x + 1 + 9223372036854775808) % 18446744073709551616 - 9223372036854775808
+
+def incLast : List Int → List Int
+  | [] => []
+  | [x] => [inc64 x]
+  | x :: xs => x :: incLast xs
+
+/-- One comma-separated part of `ParseRange`; `none` = error. -/
+def parseCriterion (part : List Char) : Option (List Criterion) :=
+  let (o, vt) := splitAtLastOp part
+  match parse vt with
+  | none => none
+  | some v =>
+    if o = ['=', '='] then some [⟨.eq, v⟩]
+    else if o = ['!', '='] then some [⟨.ne, v⟩]
+    else if o = ['<', '='] then some [⟨.le, v⟩]
+    else if o = ['>', '='] then some [⟨.ge, v⟩]
+    else if o = ['<'] then some [⟨.lt, v⟩]
+    else if o = ['>'] then some [⟨.gt, v⟩]
+    else if o = ['~', '='] then
+      (if v.release.length < 2 then none
+       else
+        let uv : Ver := { epoch := v.epoch, release := incLast (v.release.take (v.release.length - 1)) }
+        some [⟨.ge, v⟩, ⟨.lt, uv⟩])
+    else none
+
+def parseCriteria : List (List Char) → Option (List Criterion)
+  | [] => some []
+  | p :: ps => match parseCriterion p, parseCriteria ps with
+    | some a, some b => some (a ++ b)
+    | _, _ => none
+
+/-- `ParseRange`. -/
+def parseRange (s : List Char) : Option (List Criterion) :=
+  parseCriteria (splitOn ',' (s.filter fun c => !isSpace c))
+
 end ClairModel.Pep440
